@@ -1,0 +1,10 @@
+//go:build !verif && linux
+// +build !verif,linux
+
+package seccomp
+
+import "syscall"
+
+func verifPoint(string) {}
+
+func verifInstall(uintptr, FilterFlag, []syscall.SockFilter) {}
